@@ -178,6 +178,35 @@ def z_decompress(E, st, args, kw):
     return out
 
 
+@R.spec("zlib.decompressobj", doc="a streaming decompressor object (model zlib.Decompress)")
+def z_decompressobj(E, st, args, kw):
+    return [Res(st, st.new_obj("zlib.Decompress"))]
+
+
+@R.model("zlib.Decompress")
+class ZDecompress:
+    """zlib.decompressobj(): decompress(b) / decompress(b, 0) behave like zlib.decompress(b) for a complete stream; decompress(b, max_length > 0)
+    returns the first min(len, max_length) bytes of the decompressed data (the rest stays in the object); invalid data raises zlib.error"""
+
+    def getattr(self, E, st, obj, name):
+        return None
+
+    def m_decompress(self, E, st, obj, args, kw):
+        b = args[0]
+        mx = args[1] if len(args) > 1 else kw.get("max_length", VInt(0))
+        out = []
+        for s2, ok in E.branch(st, zvalid(b.e)):
+            if not ok:
+                out.append(E.raise_(s2, "zlib.error"))
+                continue
+            full = zdecompress(b.e)
+            for s3, unlimited in E.branch(s2, z3.Or(mx.e <= 0, z3.Length(full) <= mx.e)):
+                out.append(Res(s3, VBytes(full if unlimited else z3.SubSeq(full, 0, mx.e))))
+        return out
+
+    methods = {"decompress": m_decompress}
+
+
 ascii_enc = z3.Function("ascii_enc", StrS, BytesS)
 ascii_dec = z3.Function("ascii_dec", BytesS, StrS)
 is_ascii_s = z3.Function("is_ascii_s", StrS, BoolS)
